@@ -61,15 +61,24 @@ def r1(run, ctx):
               calls[0] if calls else f.node,
               "records of a channel are written to %s" % (norm_text(calls[0].func) if calls else '?'))
     init = ctx.fn(H + '__init__')
-    t = norm_text(init.node)
-    run.check('R1', 'self.name = name' in t and 'self.process = process' in t,
+    from rules.common import attr_stores as _stores
+    okh = True
+    for attr in ('name', 'process'):
+        st_ = _stores(init.node, attr)
+        okh = okh and bool(st_) and all(norm_text(astq.resolve_local(init.node, v)) == attr
+                                        for _, v in st_)
+    run.check('R1', okh,
               'the handler stores the name and process it was created for', init, init.node)
     so = ctx.fn(R + '_start_one')
     hc = [c for n in ctx.live_nodes(so) for c in n.calls() if astq.call_last(c) == 'Handler']
     run.check('R1', len(hc) == 1 and [norm_text(a) for a in hc[0].args] ==
               ['self', 'stream_name', 'process', 'pipe'], 'a handler is built from the registered '
               '(name, process, pipe)', so, hc[0] if hc else so.node)
-    run.check('R1', 'self.loop.add_handler(fd, handler, ioloop.IOLoop.READ)' in norm_text(so.node),
+    ah = [c for c in ast.walk(so.node) if isinstance(c, ast.Call) and
+          astq.call_last(c) == 'add_handler' and len(c.args) == 3]
+    run.check('R1', len(ah) == 1 and norm_text(astq.resolve_local(so.node, ah[0].args[0])) == 'fd'
+              and norm_text(ah[0].args[2]).endswith('.READ') and bool(hc) and
+              astq.resolve_local(so.node, ah[0].args[1]) is hc[0],
               'the handler is attached to that descriptor for READ', so, so.node)
     gp = ctx.fn(R + 'get_process_pipes')
     t = norm_text(gp.node)
@@ -304,7 +313,10 @@ def r5(run, ctx):
             for t in astq.attr_targets(a))]
         run.check('R5', len(re_) == 1, 'the bytes are not modified before hand-over', f, f.node)
     ri = ctx.fn(R + '__init__')
-    run.check('R5', 'self.buffer = buffer' in norm_text(ri.node), 'the buffer size is the '
+    from rules.common import attr_stores
+    bst = attr_stores(ri.node, 'buffer')
+    run.check('R5', bool(bst) and all(norm_text(astq.resolve_local(ri.node, v)) == 'buffer'
+                                      for _, v in bst), 'the buffer size is the '
               'configured one', ri, ri.node)
 
 
